@@ -91,7 +91,10 @@ def build_op(spec, shape, cplx):
     if k == "Diagonal":
         return linop.Diagonal(snp.array(to_np(spec["d"], shape, cplx)), input_dtype=dt)
     if k == "ScaledIdentity":
-        return linop.ScaledIdentity(spec["c"], shape, input_dtype=dt)
+        c = spec["c"]
+        if isinstance(c, (list, tuple)):   # [re, im]: complex scalar (complex problems)
+            c = complex(c[0], c[1]) if cplx else c[0]
+        return linop.ScaledIdentity(c, shape, input_dtype=dt)
     if k == "MatrixOperator":
         M = to_np(spec["M"], tuple(spec["mshape"]), cplx)
         return linop.MatrixOperator(snp.array(M))
@@ -415,8 +418,10 @@ def conv_spec(rng, shape, ndims, cplx, lead=None):
 
 def shift_invariant_block(rng, shape, ndims, cplx, lead=None):
     r = rng.random()
-    if r < 0.4:
+    if r < 0.25:
         return {"kind": "Identity"}
+    if r < 0.4:
+        return scaled_identity_spec(rng, cplx)
     if r < 0.75:
         ax = rng.randrange(len(shape) - ndims, len(shape))
         if shape[ax] >= 2:
@@ -425,6 +430,13 @@ def shift_invariant_block(rng, shape, ndims, cplx, lead=None):
     if lead is not None and rng.random() < 0.5:
         return conv_spec(rng, shape, ndims, cplx, lead=lead)
     return conv_spec(rng, shape, ndims, cplx)
+
+
+def scaled_identity_spec(rng, cplx):
+    """c * Identity; on complex problems c has a NON-ZERO imaginary part (C^H C = |c|^2 I, not c^2 I)"""
+    re = rng.choice([0.5, 1.5, 2.0, -1.5])
+    im = rng.choice([0.5, -1.0, 1.5, -0.5]) if cplx else 0.0
+    return {"kind": "ScaledIdentity", "c": [re, im]}
 
 
 def add_history(rng, case, i):
@@ -492,13 +504,15 @@ def gen_matrix(rng, i=0):
             if rr < 0.3:
                 C = {"kind": "Identity"}
             elif rr < 0.5:
-                C = {"kind": "ScaledIdentity", "c": rng.choice([0.5, 1.5, 2.0, -1.5])}
+                C = scaled_identity_spec(rng, cplx)
             else:
                 C = {"kind": "Diagonal", "d": rand_arr(rng, (n,), cplx, nonzero=True)}
         else:
             p = rng.randint(1, 4)
             C = {"kind": "MatrixOperator", "M": rand_arr(rng, (p, n), cplx), "mshape": [p, n]}
         blocks.append({"C": C, "rho": rng.choice(RHOS)})
+    if k == 7 and not rnd7:
+        blocks[0]["C"] = scaled_identity_spec(rng, cplx)
     if mode == "mixed" and nb == 1:
         blocks.append({"C": {"kind": "MatrixOperator", "M": rand_arr(rng, (2, n), cplx), "mshape": [2, n]},
                        "rho": rng.choice(RHOS)})
@@ -507,7 +521,7 @@ def gen_matrix(rng, i=0):
 
 
 def gen_circ(rng, i=0):
-    cplx = rng.random() < 0.35
+    cplx = rng.random() < 0.35 or i % 5 == 3
     if rng.random() < 0.5:
         shape = [rng.randint(3, 6)]
     else:
@@ -526,6 +540,8 @@ def gen_circ(rng, i=0):
             add_history(rng, case, i + 1)
     case["blocks"] = [{"C": shift_invariant_block(rng, shape, nd, cplx), "rho": rng.choice(RHOS)}
                       for _ in range(rng.randint(1, 3))]
+    if i % 5 == 3:   # complex problem with a complex-scalar ScaledIdentity block
+        case["blocks"][0]["C"] = scaled_identity_spec(rng, cplx)
     return case
 
 
@@ -537,7 +553,7 @@ def sumconv_spec(rng, shape, nd, cplx):
 
 
 def gen_fblock(rng, i=0):
-    cplx = rng.random() < 0.3
+    cplx = rng.random() < 0.3 or i % 4 == 3
     K = rng.randint(2, 3)
     sp = [rng.randint(3, 5)] if rng.random() < 0.6 else [rng.randint(2, 3), 3]
     shape = [K] + sp
@@ -551,11 +567,13 @@ def gen_fblock(rng, i=0):
         add_history(rng, case, i + 2)
     case["blocks"] = [{"C": shift_invariant_block(rng, shape, nd, cplx, lead=K), "rho": rng.choice(RHOS)}
                       for _ in range(rng.randint(1, 3))]
+    if i % 4 == 3:
+        case["blocks"][0]["C"] = scaled_identity_spec(rng, cplx)
     return case
 
 
 def gen_g0(rng, i=0):
-    cplx = rng.random() < 0.3
+    cplx = rng.random() < 0.3 or i % 4 == 2
     K = rng.randint(2, 3)
     sp = [rng.randint(3, 5)] if rng.random() < 0.6 else [rng.randint(2, 3), 3]
     shape = [K] + sp
@@ -568,6 +586,8 @@ def gen_g0(rng, i=0):
     blocks = [{"C": sumconv_spec(rng, shape, nd, cplx), "rho": rng.choice(RHOS), "gscale": gscale}]
     blocks += [{"C": shift_invariant_block(rng, shape, nd, cplx, lead=K), "rho": rng.choice(RHOS)}
                for _ in range(rng.randint(1, 2))]
+    if i % 4 == 2:
+        blocks[1]["C"] = scaled_identity_spec(rng, cplx)
     case["blocks"] = blocks
     return case
 
